@@ -9,7 +9,7 @@ from mon.case import Inconclusive
 from mon.gen import mdp as G
 
 PROP = "C19"
-CASES = {"quick": 400, "thorough": 8000}
+CASES = {"quick": 400, "thorough": 40000}
 CASE_TIMEOUT = 120
 REQUIRED = ["raw_calls", "wrapper_calls", "converged_runs", "q_entries_checked", "policy_entries_checked",
             "limit_bounds_checked"]
